@@ -296,6 +296,14 @@ def instrument_fn(ftext, fspec, ed, base, rules, label, contract_of=None):
             if ("loop %d start" % loops.index((_kw, bo_, _bc, _kind))) not in sites:
                 ed.insert(base + st[bo_].end, "\n" + strlit_txt)
     for key in list(sites):
+        m = re.match(r"loop (\d+) before$", key)
+        if m:
+            # just before the K-th loop statement (anchored on the loop, not on a statement ordinal)
+            k = int(m.group(1))
+            if k >= len(loops):
+                raise Undecided("%s: loop %d not found (fn has %d loops)" % (label, k, len(loops)))
+            ed.insert(base + st[loops[k][0]].start, take(key) + "\n")
+            continue
         m = re.match(r"loop (\d+) (header|start|end|iter)$", key)
         if m:
             k = int(m.group(1))
@@ -411,6 +419,29 @@ def instrument_fn(ftext, fspec, ed, base, rules, label, contract_of=None):
                 raise Undecided("%s: lost anchor: arm expression of call %s #%d" % (label, m.group(1), want_n))
             ed.insert(base + st[e0].start, "{ " + take(key) + "\n")
             ed.insert(base + st[e1].start, " }")
+            continue
+        m = re.match(r"(?:loop (\d+) )?after_call (\w+)(?: (\d+))?$", key)
+        if m:
+            # after the top-level statement (of the fn body / of loop K's body) that contains the n-th call of NAME
+            if m.group(1) is None:
+                bo, bc = an.body_open, an.body_close
+            else:
+                k = int(m.group(1))
+                if k >= len(loops):
+                    raise Undecided("%s: loop %d not found (fn has %d loops)" % (label, k, len(loops)))
+                bo, bc = loops[k][1], loops[k][2]
+            want_n = int(m.group(3) or 0)
+            hit = None
+            cnt = 0
+            for (s0, s1, _t) in an.statements(bo, bc):
+                for q in range(s0, s1 + 1):
+                    if rsx.is_id(st[q], m.group(2)) and q + 1 < len(st) and rsx.is_p(st[q + 1], "("):
+                        if cnt == want_n and hit is None:
+                            hit = s1
+                        cnt += 1
+            if hit is None:
+                raise Undecided("%s: lost anchor: call %s #%d not found in block" % (label, m.group(2), want_n))
+            ed.insert(base + st[hit].end, "\n" + take(key) + "\n")
             continue
         m = re.match(r"(?:loop (\d+) )?before_call (\w+)(?: (\d+))?$", key)
         if m:
